@@ -14,7 +14,9 @@ Inductive behaviour :=
 | BBindFail                              (* never reached: binding itself fails with an unexpected exception (a view whose constructor
                                             raises) - the catch-all of _handle_request answers -32603 Internal error *)
 | BRpcArgs.                              (* sets code / message / data of ONE long-lived error object from its arguments and raises it *)
-Record mdesc := { md_name : string; md_sig : sig; md_ctx : ctxmode; md_body : behaviour }.
+Record mdesc := { md_name : string; md_sig : sig; md_ctx : ctxmode; md_body : behaviour;
+                  md_log : string }.     (* the name the instrumented body writes into the log: its own, or a shared label when ONE
+                                            function object is registered under several names *)
 
 Inductive mwdesc :=
 | MwPass
@@ -115,8 +117,14 @@ Definition dout := res (option (json * list Z)).
 Definition dout_eqb (a b : dout) : bool :=
   res_eqb (option_eqb (fun x y => json_equiv (fst x) (fst y) && list_eqb Z.eqb (snd x) (snd y))) a b.
 Definition dobs := (dout * list json)%type.
+(* the instrumented bodies log [md_log] of the descriptor registered (last) under the requested name *)
+Definition log_name (d : dconfig) (n : string) : string :=
+  match fold_left (fun acc m => if String.eqb (md_name m) n then Some m else acc) (dc_methods d) None with
+  | Some m => md_log m | None => n end.
+Definition show_event_d (d : dconfig) (e : event) : json :=
+  match e with EvCall n a => JArr [JStr "call"; JStr (log_name d n); env_json a] | _ => show_event e end.
 Definition model_obs (d : dconfig) (l : load_result) (ctx : json) : dobs :=
-  let '(o, lg) := dispatch (mk_config d) l ctx in (o, map show_event lg).
+  let '(o, lg) := dispatch (mk_config d) l ctx in (o, map (show_event_d d) lg).
 Definition dobs_eqb (a b : dobs) : bool :=
   dout_eqb (fst a) (fst b) && list_eqb json_equiv (snd a) (snd b).
 
